@@ -4,7 +4,7 @@ import gens, blk, compcases as cc
 from capi import Lib
 from vlib import Oracle, build_lib, hx, md5
 
-THEOREMS = ["C01_factorisation_decodes", "C01_fast_generic_roundtrip", "C01_fast_extState_roundtrip", "C01_fastReset_history", "C01_initStream_ctx_ok"]
+THEOREMS = ["C01_factorisation_decodes", "C01_fast_generic_roundtrip", "C01_fast_extState_roundtrip", "C01_fastReset_history", "C01_initStream_ctx_ok", "C01_compress_then_decompress_safe"]
 CORRESPONDENCE = ["Model.FastApi.compress_fast_extState == LZ4_compress_default/_fast/_fast_extState (return value, bytes, context fields, hash table)",
                   "Model.FastApi.compress_fast_extState_fastReset == LZ4_compress_fast_extState_fastReset over call histories on one context (return value, bytes, context fields, hash table after every call)"]
 RULE = ("inputs from seeded structured generators (random, runs, periodic, text, barely compressible, long-match, self-dictionary, mixed) "
